@@ -1,6 +1,7 @@
 package main
 
 import (
+	"os"
 	"fmt"
 	"go/constant"
 	"go/token"
@@ -184,6 +185,7 @@ func runC04(c *Ctx) {
 	resetRemoveAnnounce(c, "C04.reset-announce")
 	contentWriters(c, "C04.handles-keep-value")
 	c.Borrow("C11", map[string]string{"C11.token": "C04.wakeup", "C11.wait-set": "C04.wait-set"}, "a lost wake-up leaves the sender asleep with changes pending: the subscriber never converges")
+	c.Borrow("C03", map[string]string{"C03.write-then-return": "C04.leaf-handle", "C03.equal-sound": "C04.change-not-hidden", "C03.delete-path": "C04.delete-path"}, "the queue holds leaf handles and the sender reads the value at send time: the handle announced for a change must be the tree's own node (a detached copy goes stale and is queued beside the real node), and the event-driven suppression may hide only changes that leave the value equal")
 	c.Rule("C04.registration-kept", "a stream's registration survives the end of other streams: removeQuery prunes a node only when it holds neither clients nor children (a pruned node silently stops every later change from reaching the subscribers registered below it)")
 	removeQueryPrune(c, "C04.registration-kept")
 	c.Rule("C04.reg-before-walk", "on every path of Server.Subscribe in STREAM mode, a call that registers the subscription with the match tree (reaches match.AddQuery) precedes every `go` of a function that walks the cache (reaches Cache.Query); STREAM paths that start a walk or the sender contain a registration")
@@ -653,7 +655,65 @@ func markerPlacement(c *Ctx, rule string) {
 			c.Floor(rule+"/error-checks", nChecks, 1)
 		}
 	}
-
+	// ---- every subscription of the request is walked: replayed with two subscriptions (loop folded), not updates_only
+	{
+		fSubs := P.Field("proto/gnmi", "SubscriptionList", "Subscription")
+		cls := func(e *PPA, st *State, rv RV) string {
+			r := e.Resolve(st, rv)
+			call, ok := r.V.(*ssa.Call)
+			if !ok {
+				return ""
+			}
+			if calleeName(&call.Call) == "(*proto/gnmi.SubscriptionList).GetUpdatesOnly" {
+				return "UPDONLY"
+			}
+			if la, ok := lenArg(call); ok {
+				x := e.Resolve(st, RV{r.F, la})
+				if (fSubs != nil && loadOfField(x.V, fSubs)) || isCallNamed(x.V, "(*proto/gnmi.SubscriptionList).GetSubscription") {
+					return "NSUBS"
+				}
+			}
+			return ""
+		}
+		at := &Atoms{Class: cls, Bool: map[string]bool{"UPDONLY": false}, Int: map[string]int64{"NSUBS": 2}}
+		e := &PPA{
+			Cond:      at.Cond,
+			MaxVisits: 4,
+			Inline: func(fr *Frame, call ssa.CallInstruction, callee *ssa.Function) bool {
+				return callee.Parent() == procSub
+			},
+			Watch: func(ev *Ev) bool {
+				return isQueueInsert(ev) || ev.Label == "call:(*cache.Cache).Query"
+			},
+		}
+		if os.Getenv("VERIF_DEBUG") != "" {
+			e.TraceBranches = true
+			w := e.Watch
+			e.Watch = func(ev *Ev) bool { return w(ev) || ev.Label == "if" }
+		}
+		e.Run(procSub)
+		c.Paths += len(e.Paths)
+		c.Scen++
+		n := 0
+		for _, p := range e.Paths {
+			if p.Count(isMarkerInsert) != 1 {
+				continue
+			}
+			n++
+			q := p.Count(lbl("call:(*cache.Cache).Query"))
+			if os.Getenv("VERIF_DEBUG") != "" && q != 2 {
+				for _, ev := range p.Trace {
+					if ev.Label == "if" {
+						fmt.Fprintf(os.Stderr, "  if %s -> %v @%s\n", Expr(ev.Args[0].V), ev.Taken, P.Pos(posOf(ev.In)))
+					} else {
+						fmt.Fprintf(os.Stderr, "  %s\n", ev.Label)
+					}
+				}
+			}
+			c.Check(q == 2, rule, fnName(procSub), "two subscriptions: the marker follows one Cache.Query per subscription", P.Pos(procSub.Pos()), fmt.Sprintf("%d queries before the marker; path: %s", q, p.String()))
+		}
+		c.Floor(rule+"/two-subscriptions", n, 1)
+	}
 }
 
 // walkVisitors: the functions handed to Cache.Query as visitor by f or by same-package helpers
